@@ -756,6 +756,12 @@ func (e *Exec) globalFacts(g *ssa.Global, st *State) {
 		e.Out.Assert(Eq(e.get(st, name, SAny), "(any_i "+IntLit(int64(e.P.typeID(types.Typ[types.UnsafePointer])))+" "+e.globalBase(name)+")"))
 		return
 	}
+	if sv, ok := e.P.globalStringConst(g); ok {
+		name := "G$" + e.qual(g.Pkg.Pkg) + "." + g.Name()
+		e.P.Trusted["immutable-global: "+g.Pkg.Pkg.Path()+"."+g.Name()+" keeps its string literal (no assignment or address-of found in the repository's sources on this run)"] = true
+		e.Out.Assert(Eq(e.get(st, name, SStr), StrLit(sv)))
+		return
+	}
 	vals, isSlice, ok := e.P.globalBytes(g)
 	if !ok {
 		return
